@@ -513,3 +513,10 @@ _c07_gen = PROPS["C07"].generate
 PROPS["C07"].family_driver = dict(PROPS["C07"].family_driver, **_slv_drv)
 PROPS["C07"].generate = lambda rng, tier: _c07_gen(rng, tier) + G.gen_slv_hstart(rng, tier)
 PROPS["C07"].rule += "; assembled solvers with h_start = time step on a slow reaction: one attempt, accepted"
+
+
+# no scenario of the assembled-solver families passes an invalid mechanism, listing or configuration: an exception is
+# a refusal of valid input, whatever the property under check
+for _pid in ("C08", "C09", "C10", "C11", "C12", "C13", "C14"):
+    if PROPS[_pid].oracle_tokens is not None:
+        PROPS[_pid].oracle_tokens = PROPS[_pid].oracle_tokens + ["ORACLE_VALID_INPUT_REFUSED"]
